@@ -53,6 +53,8 @@ class LRUSpec(CacheSpec):
             return [self._store(s, op[1], op[2])]
         if kind == "update2":
             return [self._store(self._store(s, op[1], VALUES[0]), op[2], VALUES[1])]
+        if kind == "update3":
+            return [self._store(self._store(self._store(s, op[1], VALUES[0]), op[2], VALUES[1]), op[2], VALUES[0])]
         if kind in ("get", "getd"):
             return [self._use(s, op[1])] if present else [s]
         if kind == "setdefault":
